@@ -16,7 +16,7 @@ import Cellml.Expr.Convert
 
 set_option linter.constructorNameAsVariable false
 
-namespace Cellml.Tie
+namespace Cellml.Tie.PConvert
 open Units Infer Convert
 
 /-- a pint `Unit`, or python `None` -/
@@ -202,4 +202,4 @@ def convView (reg : Registry) (Γ : VarEnv) : ConvView where
 def modelRec (reg : Registry) (Γ : VarEnv) (e : E) (t : PyUnit) : Except PyErr ConvRes :=
   encConv (convert reg Γ e t)
 
-end Cellml.Tie
+end Cellml.Tie.PConvert
